@@ -15,6 +15,16 @@
 //!   `poly:32`  the PUBLIC stroker on polylines with bevel joins and butt caps (fixed width): the sequence
 //!              of (source endpoint, side) of its vertices and its triangle list, predicted by the model's
 //!              skeleton of fixed_width_step_impl / compute_join_side_positions_fixed_width / end / close
+//!   `full:32`  the PUBLIC `StrokeTessellator::tessellate` on polylines, all joins / caps / miter limits: every
+//!              vertex (all accessors) and every triangle, compared with the complete model
+//!              `Model/Tess/StrokeFull.lean` (`tessellateFw`)
+//!   `fulle:32` all five entry points, fixed / variable width, curves, custom attributes (incl. curves a few
+//!              float steps across far from the origin): the same, with the interpolated attributes as the
+//!              vertex constructor reads them (`tessellateIds` + the attribute cache of `StrokeAttrs.lean`)
+//!   Oracle clauses of `full` / `fulle`: distinct-ids, valid-ids, ids-valid-when-emitted (the recorder `EmitRec`
+//!   checks every `add_triangle` against the vertices emitted SO FAR: the run-time counterpart of
+//!   `Lyon.C05c.VSteps`), attributes-match-source (class `degenerate-subpath-after-curve`: finding
+//!   C05-empty-cap-stale-attributes).
 //! End-to-end family (oracle only, no model): `stroke` — the public `StrokeTessellator` entry
 //! points with a recording `BuffersBuilder`, all joins × caps × widths × miter limits ×
 //! tolerances × fixed/variable width on polylines, curves, degenerate sub-paths.
@@ -23,6 +33,8 @@ use lyon_path::math::{point, vector, Point, Vector};
 use lyon_path::traits::PathBuilder;
 use lyon_path::{EndpointId, Event, LineCap, LineJoin, Path, Side};
 use lyon_tessellation::verif_stroke as hk;
+use lyon_tessellation::geometry_builder::{GeometryBuilder, GeometryBuilderError, StrokeGeometryBuilder};
+use lyon_tessellation::VertexId;
 use lyon_tessellation::{
     BuffersBuilder, StrokeOptions, StrokeTessellator, StrokeVertex, StrokeVertexConstructor, VertexBuffers, VertexSource,
 };
@@ -1485,6 +1497,45 @@ fn gen_polyline_subs(rng: &mut Rng, width: f32, thr: f32, scale: f32, lattice: b
     subs
 }
 
+/// Records the output like `hk::Rec` and checks, at every `add_triangle` call, that the three ids
+/// have been returned by an earlier `add_stroke_vertex`: validity AT EMISSION TIME, which is what
+/// `Lyon.C05c.VSteps` (`stroke_indices_valid_*`) states about the model.  `early` collects
+/// `(a, b, c, number of vertices emitted so far)` of the offending calls.
+#[derive(Default)]
+struct EmitRec {
+    rec: hk::Rec,
+    early: Vec<(u32, u32, u32, u32)>,
+}
+
+impl GeometryBuilder for EmitRec {
+    fn add_triangle(&mut self, a: VertexId, b: VertexId, c: VertexId) {
+        let n = self.rec.vertices.len() as u32;
+        if a.0 >= n || b.0 >= n || c.0 >= n {
+            self.early.push((a.0, b.0, c.0, n));
+        }
+        self.rec.add_triangle(a, b, c);
+    }
+}
+
+impl StrokeGeometryBuilder for EmitRec {
+    fn add_stroke_vertex(&mut self, v: StrokeVertex) -> Result<VertexId, GeometryBuilderError> {
+        self.rec.add_stroke_vertex(v)
+    }
+}
+
+/// the id clauses of the `full` / `fulle` families: three distinct ids per triangle, all valid in
+/// the finished mesh, all valid already when the triangle was emitted
+fn check_ids(orc: &mut Oracle, site: &str, er: &EmitRec) {
+    let nv = er.rec.vertices.len() as u32;
+    for t in &er.rec.triangles {
+        orc.check(tris_distinct(t), &format!("{}/distinct-ids", site), "generic", || format!("{:?}", t));
+        orc.check(t.0 < nv && t.1 < nv && t.2 < nv, &format!("{}/valid-ids", site), "generic", || format!("{:?} of {}", t, nv));
+    }
+    orc.check(er.early.is_empty(), &format!("{}/ids-valid-when-emitted", site), "generic", || {
+        format!("(a, b, c, vertices so far) {:?}", &er.early[..er.early.len().min(4)])
+    });
+}
+
 fn full_case(ctx: &mut Ctx) {
     ctx.case("full:32", |rng| {
         let scale = match rng.below(8) {
@@ -1548,17 +1599,13 @@ fn full_case(ctx: &mut Ctx) {
                 b.end(*closed);
             }
             let path = b.build();
-            let mut rec = hk::Rec::default();
-            let res = StrokeTessellator::new().tessellate(path.iter(), &options, &mut rec);
+            let mut er = EmitRec::default();
+            let res = StrokeTessellator::new().tessellate(path.iter(), &options, &mut er);
             let mut o = Out::new();
             let mut orc = Oracle::new();
             orc.check(res.is_ok(), "full/ok", "generic", || format!("{:?}", res));
-            put_full(&mut o, &rec, false);
-            let nv = rec.vertices.len() as u32;
-            for t in &rec.triangles {
-                orc.check(tris_distinct(t), "full/distinct-ids", "generic", || format!("{:?}", t));
-                orc.check(t.0 < nv && t.1 < nv && t.2 < nv, "full/valid-ids", "generic", || format!("{:?} of {}", t, nv));
-            }
+            put_full(&mut o, &er.rec, false);
+            check_ids(&mut orc, "full", &er);
             CaseOut { imp: o, orcl: orc.verdict }
         })
     });
@@ -1626,6 +1673,66 @@ fn gen_curvy_input(rng: &mut Rng, width: f32) -> StrokeInput {
     StrokeInput { subs, kind: "curvy".to_string(), polyline: false, simple: false }
 }
 
+/// curves a few float steps across, far from the origin (coordinates near `±2^k`, features of
+/// `1 … 3000` ulps, line width and tolerance of that order): the regime where rounding could make
+/// `flattened_step`'s two dot products both negative, i.e. where the arithmetic premises (R1), (R2)
+/// of `Lyon.C05c.stroke_indices_valid_of_reg` are exercised (the `ids-valid-when-emitted` clause
+/// reports a failure of either)
+fn gen_far_curvy_input(rng: &mut Rng) -> (StrokeInput, f32, f32) {
+    let k = rng.uniform(3.0, 22.0);
+    let m = 2f64.powf(k);
+    let sx = if rng.chance(1, 2) { -1.0 } else { 1.0 };
+    let mx = sx * if rng.chance(1, 2) { 2f64.powf(k.floor()) } else { m };
+    let my = match rng.below(3) {
+        0 => 0.0,
+        1 => mx,
+        _ => m * rng.uniform(-1.0, 1.0),
+    };
+    let ulp = (m as f32 * f32::EPSILON) as f64;
+    let s = ulp * 10f64.powf(rng.uniform(0.0, 3.5));
+    let width = (s * 10f64.powf(rng.uniform(-2.0, 1.0))) as f32;
+    let tol = (s * 10f64.powf(rng.uniform(-3.5, -0.5))) as f32;
+    let rp = |rng: &mut Rng| -> Point { point((mx + rng.uniform(-1.0, 1.0) * s) as f32, (my + rng.uniform(-1.0, 1.0) * s) as f32) };
+    let start = rp(rng);
+    let mut segs = Vec::new();
+    for _ in 0..rng.range(1, 3) {
+        let g = match rng.below(4) {
+            0 => Seg::Line(rp(rng)),
+            1 | 2 => Seg::Quad(rp(rng), rp(rng)),
+            _ => Seg::Cubic(rp(rng), rp(rng), rp(rng)),
+        };
+        segs.push(g);
+    }
+    let close = rng.chance(1, 3);
+    let n = segs.len() + 1;
+    let w = (0..n).map(|_| rng.uniform(0.5, 1.5) as f32).collect();
+    (StrokeInput { subs: vec![Sub { start, segs, close, w }], kind: "far".to_string(), polyline: false, simple: false }, width.max(1e-30), tol.max(1e-30))
+}
+
+/// witness class of finding C05-empty-cap-stale-attributes, computed from the input: a sub-path that
+/// contains a curve is followed (later in the path) by a sub-path all of whose points lie within the
+/// merge distance of its first point (on-curve points within sqrt(thr), control points within 4 x),
+/// so that only one point is kept and `end` may emit an empty cap
+fn degenerate_subpath_after_curve(inp: &StrokeInput, thr: f32) -> bool {
+    let d = (thr as f64).sqrt() * 1.01;
+    let near = |a: Point, b: Point, f: f64| (((a.x - b.x) as f64).powi(2) + ((a.y - b.y) as f64).powi(2)).sqrt() <= d * f;
+    let mut curve_before = false;
+    for s in &inp.subs {
+        let degenerate = s.segs.iter().all(|g| match g {
+            Seg::Line(p) => near(*p, s.start, 1.0),
+            Seg::Quad(c, p) => near(*p, s.start, 1.0) && near(*c, s.start, 4.0),
+            Seg::Cubic(c1, c2, p) => near(*p, s.start, 1.0) && near(*c1, s.start, 4.0) && near(*c2, s.start, 4.0),
+        });
+        if degenerate && curve_before {
+            return true;
+        }
+        if s.segs.iter().any(|g| !matches!(g, Seg::Line(_))) {
+            curve_before = true;
+        }
+    }
+    false
+}
+
 // the general form: all five entry points, fixed / variable width, curves, custom attributes.
 // `fulle tol width ml join cap1 cap2 variable fw_ids nattr nev (B id x y a* | L id x y a* |
 //  Q cx cy id x y a* | C c1x c1y c2x c2y id x y a* | E close)*`
@@ -1641,10 +1748,15 @@ fn fulle_case(ctx: &mut Ctx) {
             1 => rng.uniform(0.5, 3.0),
             _ => rng.uniform(0.02, 0.4),
         } as f32;
+        let far = if rng.chance(1, 8) { Some(gen_far_curvy_input(rng)) } else { None };
+        let (width, tol) = match &far {
+            Some((_, w, t)) => (*w, *t),
+            None => (width, tol),
+        };
         let limit = *rng.pick(&[1.0f32, 1.2, 2.0, 4.0, 4.0, 10.0, 50.0]);
         let join = gen_join_kind(rng);
         let (sc, ec) = (gen_cap(rng), gen_cap(rng));
-        let variable = rng.chance(1, 2);
+        let variable = if far.is_some() { rng.chance(1, 4) } else { rng.chance(1, 2) };
         let entry = if variable { *rng.pick(&[0usize, 2, 4]) } else { rng.below(5) as usize };
         let n_attr = if variable || entry == 4 { rng.range(1, 3) as usize } else if entry == 0 || entry == 2 { rng.below(3) as usize } else { 0 };
         let mut options = StrokeOptions::tolerance(tol).with_line_width(width).with_line_join(join).with_start_cap(sc).with_end_cap(ec).with_miter_limit(limit);
@@ -1652,7 +1764,9 @@ fn fulle_case(ctx: &mut Ctx) {
             options = options.with_variable_line_width(0);
         }
         let thr = (tol * tol * 0.5).min(width * width * 0.05).max(1e-8f32);
-        let inp = if rng.chance(1, 3) {
+        let inp = if let Some((i, _, _)) = far {
+            i
+        } else if rng.chance(1, 3) {
             gen_stroke_input(rng, width * if variable { 2.5 } else { 1.0 }, thr)
         } else if rng.chance(1, 2) {
             gen_curvy_input(rng, width)
@@ -1696,6 +1810,8 @@ fn fulle_case(ctx: &mut Ctx) {
         let mut args = Out::new();
         args.f(tol).f(width).f(limit).t(join_name(join)).t(cap_name(sc)).t(cap_name(ec)).b(variable).b(fw_ids).u(n_attr as u64).u(n_ev as u64);
         let mut k_id = 0;
+        // endpoint id -> its custom attributes (what the attribute store answers)
+        let mut attr_of: Vec<(u32, Vec<f32>)> = Vec::new();
         for s in &inp.subs {
             let at = |k: usize| -> Vec<f32> {
                 let mut a = vec![s.w[k]];
@@ -1704,6 +1820,7 @@ fn fulle_case(ctx: &mut Ctx) {
                 a
             };
             args.t("B").u(ids[k_id] as u64).p(s.start);
+            attr_of.push((ids[k_id], at(0)));
             for a in at(0) {
                 args.f(a);
             }
@@ -1714,6 +1831,7 @@ fn fulle_case(ctx: &mut Ctx) {
                     Seg::Quad(c, p) => args.t("Q").p(*c).u(ids[k_id] as u64).p(*p),
                     Seg::Cubic(c1, c2, p) => args.t("C").p(*c1).p(*c2).u(ids[k_id] as u64).p(*p),
                 };
+                attr_of.push((ids[k_id], at(k + 1)));
                 for a in at(k + 1) {
                     args.f(a);
                 }
@@ -1732,7 +1850,7 @@ fn fulle_case(ctx: &mut Ctx) {
             inp.kind,
         );
         (args, tag, move || {
-            let mut rec = hk::Rec::default();
+            let mut rec = EmitRec::default();
             let mut tess = StrokeTessellator::new();
             let res = match entry {
                 0 => tess.tessellate_path(&path, &options, &mut rec),
@@ -1763,7 +1881,30 @@ fn fulle_case(ctx: &mut Ctx) {
             let mut orc = Oracle::new();
             orc.check(res.is_ok(), "fulle/ok", "generic", || format!("{:?}", res));
             // attributes are visible to the vertex constructor when the entry point has a store
-            put_full(&mut o, &rec, true);
+            put_full(&mut o, &rec.rec, true);
+            check_ids(&mut orc, "fulle", &rec);
+            // every vertex reports the attributes of its source: the endpoint's own, or the two
+            // endpoints' interpolated at `t` (same f32 expression as lyon's: a*(1-t) + b*t)
+            if !fw_ids && n_attr > 0 {
+                let class = if degenerate_subpath_after_curve(&inp, thr) { "degenerate-subpath-after-curve" } else { "generic" };
+                let get = |id: EndpointId| attr_of.iter().find(|a| a.0 == id.0).map(|a| a.1.clone());
+                for (k, v) in rec.rec.vertices.iter().enumerate() {
+                    let expect: Option<Vec<f32>> = match v.source {
+                        VertexSource::Endpoint { id } => get(id),
+                        VertexSource::Edge { from, to, t } => match (get(from), get(to)) {
+                            (Some(a), Some(b)) => Some(a.iter().zip(b.iter()).map(|(x, y)| x * (1.0 - t) + y * t).collect()),
+                            _ => None,
+                        },
+                    };
+                    let ok = match &expect {
+                        Some(e) => e.len() == v.attributes.len() && e.iter().zip(v.attributes.iter()).all(|(x, y)| x == y || ulp_close(*x, *y, 2.0)),
+                        None => false,
+                    };
+                    orc.check(ok, "fulle/attributes-match-source", class, || {
+                        format!("vertex {} source {:?}: interpolated_attributes {:?}, expected {:?}", k, v.source, v.attributes, expect)
+                    });
+                }
+            }
             CaseOut { imp: o, orcl: orc.verdict }
         })
     });
